@@ -115,7 +115,7 @@ def gen_flow(rng, depth):
         cells = [gen_flow_leaf(rng) for _ in range(rng.randint(1, 5))]
         return {"t": "GridFlow", "cells": cells, "cw": rng.randint(3, 9), "hs": rng.randint(0, 2), "vs": rng.randint(0, 1), "align": rng.choice(ALIGN)}
     if r < 0.68:
-        return {"t": "AttrMap", "w": gen_flow(rng, d), "am": rng.choice(ATTRS), "fm": rng.choice(ATTRS)}
+        return {"t": rng.choice(["AttrMap", "AttrMap", "AttrWrap"]), "w": gen_flow(rng, d), "am": rng.choice(ATTRS), "fm": rng.choice(ATTRS)}
     if r < 0.8:
         width = rng.choice([["relative", rng.choice([50, 80, 100])], ["relative", 100], rng.randint(4, 12)])
         return {"t": "Padding", "w": gen_flow(rng, d), "align": rng.choice(ALIGN), "width": width, "left": rng.randint(0, 2), "right": rng.randint(0, 2)}
@@ -170,7 +170,7 @@ def gen_box(rng, depth):
         items = [[rng.choice(["weight", "weight", "given"]), rng.randint(2, 8), gen_box(rng, d)] for _ in range(n)]
         return {"t": "Columns", "items": items, "div": rng.randint(0, 1), "focus": rng.randrange(n), "min_width": 1}
     if r < 0.82:
-        return {"t": "AttrMap", "w": gen_box(rng, d), "am": rng.choice(ATTRS), "fm": rng.choice(ATTRS)}
+        return {"t": rng.choice(["AttrMap", "AttrMap", "AttrWrap"]), "w": gen_box(rng, d), "am": rng.choice(ATTRS), "fm": rng.choice(ATTRS)}
     if r < 0.88:
         return {"t": "Padding", "w": gen_box(rng, d), "align": rng.choice(ALIGN), "width": ["relative", rng.choice([60, 100])], "left": rng.randint(0, 1), "right": rng.randint(0, 1)}
     if r < 0.93:
@@ -228,6 +228,9 @@ def build(r):
         return urwid.GridFlow([build(c) for c in r["cells"]], r["cw"], r["hs"], r["vs"], r["align"])
     if t == "AttrMap":
         return urwid.AttrMap(build(r["w"]), r["am"], r["fm"])
+    if t == "AttrWrap":
+        # the older interface to the same widget (attr / focus_attr / w setters)
+        return urwid.AttrWrap(build(r["w"]), r["am"], r["fm"])
     if t == "Padding":
         width = tuple(r["width"]) if isinstance(r["width"], list) else r["width"]
         return urwid.Padding(build(r["w"]), align=r["align"], width=width, left=r["left"], right=r["right"])
@@ -335,6 +338,15 @@ def propose(rng, w):
             ["set_caption", rng.choice(["", "cap ", "漢:"])],
             ["insert_text", rng.choice(["z", "漢", "qq"])],
             ["keypress", rng.choice(["a", "B", "backspace", "delete", "left", "right", "home", "end", "up", "down", "enter"])],
+            # the same changes through the property setters / the mask
+            ["setprop", "edit_text", text_of(rng).replace("\n", "")],
+            ["setprop", "edit_pos", rng.randint(0, 12)],
+            ["set_mask", rng.choice([None, "*", "漢"])],
+            # a change whose signal handler raises (the caller catches it and carries on)
+            ["raising", "postchange/set_edit_text", ["set_edit_text", rng.choice(["Q", "other text", "漢字"])]],
+            ["raising", "postchange/insert_text", ["insert_text", rng.choice(["z", "漢"])]],
+            ["raising", "postchange/keypress", ["keypress", rng.choice(["a", "backspace"])]],
+            ["raising", "change/set_edit_text", ["set_edit_text", rng.choice(["Q", "other text"])]],
         ]
     elif isinstance(w, urwid.IntEdit):
         c += [["keypress", rng.choice(["1", "9", "backspace", "left"])], ["set_edit_text", str(rng.randint(0, 9999))]]
@@ -350,11 +362,16 @@ def propose(rng, w):
         ]
     elif isinstance(w, urwid.CheckBox):
         c += [["set_state", rng.random() < 0.5], ["toggle_state"], ["set_label", text_of(rng).replace("\n", " ")], ["keypress", " "]]
+        c += [["setprop", "state", rng.random() < 0.5], ["raising", "postchange/toggle_state", ["toggle_state"]], ["raising", "change/toggle_state", ["toggle_state"]]]
     elif isinstance(w, urwid.Button):
         c += [["set_label", rng.choice(["ok", "go", "a much longer label"])]]
     elif isinstance(w, urwid.ProgressBar):
-        c += [["set_completion", rng.randint(0, 100)]]
+        c += [["set_completion", rng.randint(0, 100)], ["setprop", "current", rng.randint(0, 100)], ["setprop", "done", rng.choice([50, 100, 200])]]
+    elif isinstance(w, urwid.AttrWrap):
+        c += [["set_attr", rng.choice(ATTRS[1:])], ["set_focus_attr", rng.choice(ATTRS[1:])], ["setprop", "attr", rng.choice(ATTRS[1:])], ["setprop", "focus_attr", rng.choice(ATTRS[1:])]]
+        c += [["set_attr_map", rng.choice(ATTRS[1:])], ["set_focus_map", rng.choice(ATTRS[1:])], ["set_w"]]
     elif isinstance(w, urwid.AttrMap):
+        c += [["attr_map_multi", rng.choice(ATTRS[1:]), rng.choice(ATTRS[1:])]]
         c += [["set_attr_map", rng.choice(ATTRS[1:])], ["set_focus_map", rng.choice(ATTRS[1:])], ["replace_child", "same"]]
     elif isinstance(w, urwid.Padding):
         c += [["set_align", rng.choice(ALIGN)], ["set_width", rng.choice([["relative", 50], ["relative", 100], rng.randint(4, 12)])], ["replace_child", "same"]]
@@ -364,7 +381,9 @@ def propose(rng, w):
         c += [["replace_child", "box"]]
     elif isinstance(w, urwid.Scrollable):
         c += [["set_scrollpos", rng.randint(0, 6)]]
-    elif isinstance(w, (urwid.WidgetPlaceholder, urwid.Filler)):
+    elif isinstance(w, urwid.Filler):
+        c += [["replace_child", "same"], ["filler_set_body"]]
+    elif isinstance(w, urwid.WidgetPlaceholder):
         c += [["replace_child", "same"]]
     elif isinstance(w, (urwid.Pile, urwid.Columns, urwid.GridFlow)):
         n = len(w.contents)
@@ -375,6 +394,11 @@ def propose(rng, w):
             c += [["contents_del", rng.randrange(n)], ["contents_swap", rng.randrange(n), rng.randrange(n)]]
         if isinstance(w, urwid.GridFlow):
             c += [["set_cell_width", rng.randint(3, 9)]]
+            if n:
+                c += [["setprop", "focus_cell_index", rng.randrange(n)], ["set_focus_legacy", rng.randrange(n)]]
+        elif n:
+            # the older focus / list interfaces
+            c += [["set_focus_legacy", rng.randrange(n)], ["setprop", "focus_item" if isinstance(w, urwid.Pile) else "focus_col", rng.randrange(n)], ["widget_list_set", rng.randrange(n)]]
     elif isinstance(w, urwid.Frame):
         c += [["set_header", rng.random() < 0.8], ["set_footer", rng.random() < 0.8], ["set_body"], ["frame_focus", rng.choice(["header", "body", "footer"])]]
     elif isinstance(w, urwid.Overlay):
@@ -394,7 +418,7 @@ def propose(rng, w):
         return None
     op = rng.choice(c)
     # ops that need a fresh child carry its recipe
-    if op[0] in ("replace_child", "contents_insert", "contents_append", "contents_set", "set_body", "set_top", "set_bottom", "set_header", "set_footer", "walker_insert", "walker_append", "walker_set"):
+    if op[0] in ("replace_child", "contents_insert", "contents_append", "contents_set", "set_body", "set_top", "set_bottom", "set_header", "set_footer", "walker_insert", "walker_append", "walker_set", "set_w", "filler_set_body", "widget_list_set"):
         op.append(rng.randint(0, 10**9))
     return op
 
@@ -419,6 +443,42 @@ def apply_mutation(w, op, size):
         w.set_layout(align, wrap, layout_object(a[2]))
     elif name == "toggle_state":
         w.toggle_state()
+    elif name == "setprop":
+        if a[0] == "focus_cell_index":
+            w.focus_cell = w.contents[a[1]][0]
+        else:
+            setattr(w, a[0], a[1])
+    elif name in ("set_mask", "set_attr", "set_focus_attr"):
+        getattr(w, name)(a[0])
+    elif name == "raising":
+        # a handler connected to the named signal raises; the caller catches that and carries on with
+        # the widget in whatever state the mutator left it
+        sig = a[0].split("/")[0]
+
+        class HandlerRaised(Exception):
+            pass
+
+        def handler(*_a):
+            raise HandlerRaised
+
+        key = urwid.connect_signal(w, sig, handler)
+        try:
+            apply_mutation(w, a[1], size)
+        except HandlerRaised:
+            pass
+        finally:
+            urwid.disconnect_signal_by_key(w, sig, key)
+    elif name == "attr_map_multi":
+        w.attr_map = {None: a[0], "a": a[1], "hi": a[0]}
+    elif name == "set_w":
+        w.set_w(_fresh(a[-1], kind_of(w.original_widget)))
+    elif name == "filler_set_body":
+        w.body = _fresh(a[-1], kind_of(w.original_widget))
+    elif name == "set_focus_legacy":
+        w.set_focus(a[0])
+    elif name == "widget_list_set":
+        old = w.widget_list[a[0]]
+        w.widget_list[a[0]] = _fresh(a[-1], kind_of(old), 0)
     elif name == "keypress":
         w.keypress((max(1, size[0]),), a[0])
     elif name == "set_attr_map":
